@@ -8,6 +8,8 @@ for name in sorted(os.listdir(os.path.join(HERE, 'seeded'))):
     if not os.path.exists(mp):
         continue
     m = json.load(open(mp))
+    if m.get('benign'):
+        continue
     notes = m.get('needs', '')
     first = ''
     for l in notes.splitlines():
@@ -26,3 +28,28 @@ for name in sorted(os.listdir(os.path.join(HERE, 'seeded'))):
 print('| change | what it does | registered check | first failing signature | other checks |')
 print('|---|---|---|---|---|')
 print('\n'.join(rows))
+
+
+# behaviour-preserving changes: every check must stay quiet
+brows = []
+for name in sorted(os.listdir(os.path.join(HERE, 'seeded'))):
+    mp = os.path.join(HERE, 'seeded', name, 'meta.json')
+    if not os.path.exists(mp):
+        continue
+    m = json.load(open(mp))
+    if not m.get('benign'):
+        continue
+    first = ''
+    for l in m.get('needs', '').splitlines():
+        l = l.strip(' #*-')
+        if len(l) > 20:
+            first = l
+            break
+    al = m.get('alarms') or {}
+    brows.append('| {} | {} | {} | {} |'.format(name, first[:150].replace('|', '/'), 'yes' if m.get('confirmed') else 'NO',
+                                           'all quiet' if not al else 'ALARM: ' + ', '.join('{} {}'.format(k, '; '.join(v.get('signatures', []))[:80]) for k, v in sorted(al.items()))))
+if brows:
+    print()
+    print('| behaviour-preserving change | what it does | suite passes, stress digest identical | C01..C20 quick |')
+    print('|---|---|---|---|')
+    print('\n'.join(brows))
